@@ -10,6 +10,8 @@ From PowHsm Require Import Gen.SrcM.
 From PowHsm Require Import Proofs.SrcEquivDongleM.
 From PowHsm Require Import Proofs.SrcEquivProtoM.
 From PowHsm Require Import Proofs.SrcEquivBringupM.
+From PowHsm Require Import Proofs.SrcEquivProtoV1M.
+From PowHsm Require Import Proofs.SrcEquivStateM.
 Open Scope N_scope.
 
 (* closed check on the generated except-ladders: every v5 handler maps a link error to (flag set, device error) and a timeout to (flag untouched, device error) *)
@@ -218,5 +220,38 @@ Theorem C11_source_initialize_device_is_model :
          srcm_HSM2ProtocolLedger__initialize_device (proto_obj fields) w =
          mres (fun _ : unit => VNone) (initialize_device KLedger w).
 Proof. exact (@srcm_initialize_device_ok). Qed.
+
+(* TIE BY TRANSLATION (device monad): the legacy protocol's handlers as translated from ledger/protocol_v1.py: the repair and the reconnection flag are those of the wrapped v2 protocol object, exactly as in the model - getPubKey *)
+Theorem C11_source_v1_get_pubkey_is_model :
+  forall (kind : dongle_kind) (init : pm pv) (cm : string -> pv -> list pv -> pr pv)
+           (self : pv) (req : obj) (x : str) (els : list N) (w : world),
+         init_ok kind init ->
+         jget (s "keyId") req = Some (JStr x) ->
+         bip32_path x = Some els ->
+         cm "to_binary" (SrcEquivBase.path_obj els) [] = POk (VBytes (path_to_binary els)) ->
+         srcm_HSM1ProtocolLedger___get_pubkey cm init self (request_with_path req els) w =
+         mres rtuple_pv (op_get_pubkey kind V1 req w).
+Proof. exact (@srcm_v1_get_pubkey_ok). Qed.
+
+(* legacy sign *)
+Theorem C11_source_v1_sign_is_model :
+  forall (kind : dongle_kind) (init : pm pv) (cm : string -> pv -> list pv -> pr pv)
+           (self : pv) (req : obj) (x h : str) (els : list N) (w : world),
+         init_ok kind init ->
+         jget (s "keyId") req = Some (JStr x) ->
+         bip32_path x = Some els ->
+         jget (s "message") req = Some (JStr h) ->
+         cm "to_binary" (SrcEquivBase.path_obj els) [] = POk (VBytes (path_to_binary els)) ->
+         srcm_HSM1ProtocolLedger___sign cm init self (request_with_path req els) w =
+         mres rtuple_pv (op_sign_v1 kind req w).
+Proof. exact (@srcm_v1_sign_ok). Qed.
+
+(* _blockchain_state of the v5 protocol *)
+Theorem C11_source_blockchain_state_handler_is_model :
+  forall (kind : dongle_kind) (init : pm pv) (self request : pv) (req : obj) (w : world),
+         init_ok kind init ->
+         srcm_HSM2ProtocolLedger___blockchain_state init self request w =
+         mres rtuple_pv (op_blockchain_state kind req w).
+Proof. exact (@srcm_blockchain_state_handler_ok). Qed.
 
 Example C11_nonvacuous : True. Proof. exact I. Qed. (* concrete three-request lifetimes closed by vm_compute in Proofs/C11.v, Module Examples *)
